@@ -128,3 +128,17 @@ def gen_model(rng, max_rows=30, big=False):
             r['utim'] += shift
     return {'decls': decls, 'header': header, 'header_sep': rng.pick([' ', '    ', '\t', ' \t ']), 'date_style': rng.pick(['A', 'B']),
             'rows': rows, 'row_sep': rng.pick([' ', '    ', '\t', '  \t']), 'trailing_newline': rng.chance(0.8)}
+
+
+def token_fields(by: bytes):
+    """(pos, n, name) of the header line and of the first three tokens (UTIM DATE TIME) of the first data row."""
+    import re
+    out = []
+    hdr = re.search(rb'^UTIM\s+DATE\s+TIME.*$', by, re.M)
+    if hdr:
+        out.append((hdr.start(), min(16, hdr.end() - hdr.start()), 'dat.header'))
+        row = re.match(rb'\n(\S+)\s+(\S+)\s+(\S+)', by[hdr.end():])
+        if row:
+            for i in (1, 2, 3):
+                out.append((hdr.end() + row.start(i), row.end(i) - row.start(i), 'dat.token'))
+    return out
